@@ -301,17 +301,20 @@ class HttpProxyPlugin(HttpProtocolHandlerPlugin):
             'server_port': text_(self.upstream.addr[1] if self.upstream else None),
             'connection_time_ms': '%.2f' % ((time.time() - self.start_time) * 1000),
             # Request
-            'request_method': text_(self.request.method),
-            'request_path': text_(self.request.path),
+            #
+            # Values below come off the wire and are not necessarily
+            # valid utf-8, access log must never fail because of them.
+            'request_method': text_(self.request.method, errors='replace'),
+            'request_path': text_(self.request.path, errors='replace'),
             'request_bytes': text_(self.request.total_size),
-            'request_ua': text_(self.request.header(b'user-agent'))
+            'request_ua': text_(self.request.header(b'user-agent'), errors='replace')
             if self.request.has_header(b'user-agent')
             else None,
-            'request_version': text_(self.request.version),
+            'request_version': text_(self.request.version, errors='replace'),
             # Response
             'response_bytes': self.response.total_size,
-            'response_code': text_(self.response.code),
-            'response_reason': text_(self.response.reason),
+            'response_code': text_(self.response.code, errors='replace'),
+            'response_reason': text_(self.response.reason, errors='replace'),
         }
         if self.flags.enable_proxy_protocol:
             assert self.request.protocol and self.request.protocol.family
